@@ -11,6 +11,8 @@ documented lag / offset axis), Fs = 10^12/interval_ps in Hz, analyzer output = d
 on input.data with that Fs, file data = plain nested-loop indexing of nibabel's array.
 """
 import os, sys, json, tempfile, warnings, shutil
+for _v in ('OMP_NUM_THREADS', 'OPENBLAS_NUM_THREADS', 'MKL_NUM_THREADS'):   # small problems: threads only add contention
+    os.environ.setdefault(_v, '1')
 from fractions import Fraction as Fr
 import numpy as np
 import common
@@ -106,7 +108,7 @@ def mk_analyzer(name, T, spec):
     A = na()
     fs = float(T.sampling_rate)
     if name == 'FilterAnalyzer':
-        return A.FilterAnalyzer(T, lb=0.05 * fs, ub=0.3 * fs, filt_order=8)
+        return A.FilterAnalyzer(T, lb=0.0537 * fs, ub=0.3071 * fs, filt_order=8)
     if name == 'MorletWaveletAnalyzer':
         return A.MorletWaveletAnalyzer(T, freqs=[0.2 * fs, 0.3 * fs])
     if name == 'EventRelatedAnalyzer':
@@ -197,6 +199,8 @@ def gen_spec(rng, dims, k, name):
     if name == 'EventRelatedAnalyzer':
         spec['len_et'] = rng.choice([4, 5, 6])
         spec['offset'] = rng.choice([0, 1, 2, 0, 3])   # TimeSeries events admit offsets >= 0 only
+    if name == 'EventRelatedAnalyzer' and k % 5 == 4:
+        spec['offset'] = 0
     if rng.random() < 0.15 and k >= 3:
         spec.pop('iv')
         spec['rate'] = rng.choice([2.0, 10.0, 1000.0, 3.0, 1.2296039445694542, 0.5, 7.0])
@@ -245,8 +249,10 @@ def gen_nifti_spec(rng, k):
     for _ in range(max(nroi, 1)):
         kk = rng.randint(1, 5)
         coords.append([[rng.randrange(vol[d]) for _ in range(kk)] for d in range(3)])
-    tr = rng.choice([None, 2.0, 1.5, 0.5, 0.81327, 'T:2000:ms', 'T:1500000:us', 2])
+    tr = rng.choice([None, 2.0, 1.5, 0.5, 0.81327, 'T:2000000000000:ms', 'T:1500000000000:us', 2])
     opt = rng.choice(['plain', 'plain', 'plain', 'percent', 'zscore', 'average', 'filter-fourier', 'filter-boxcar', 'zscore+average'])
+    if nroi == 0 and 'filter' in opt:
+        opt = 'plain'        # the filters admit at most 2-d data (boxcar) — outside this property
     return dict(seed=rng.randrange(10**6), vol=vol, lens=lens, nroi=nroi, coords=coords, tr=tr, opt=opt,
                 dtype=rng.choice(['int16', 'float32']), as_list=(nf > 1) or rng.random() < 0.2,
                 roi_tuple=rng.random() < 0.3)
@@ -359,6 +365,8 @@ def cases(rng, tier, seed):
     for name, getter, kind, chain_fn, dims in OUTPUTS:
         for k in range(per):
             spec = gen_spec(rng, dims, k, name)
+            if getter == 'xcorr_eta':      # the only (offset, len_et) its index arithmetic admits (C19's clause)
+                spec['offset'], spec['len_et'] = 0, 6
             impl, a_in, a_out, O, T = run_output(name, getter, spec)
             chain = chain_fn(a_in['n'], spec)
             out.append(Case(axis_line(chain, a_in, spec), impl, '%s/%s' % (name, getter), cmp=cmp_axis,
@@ -501,7 +509,7 @@ def direct_data(name, getter, T, spec, Fs):
         h = np.array(rows)
         return {'analytic': h, 'amplitude': np.abs(h), 'phase': np.angle(h), 'real': h.real, 'imag': h.imag}[getter]
     if name == 'FilterAnalyzer':
-        lb, ub = 0.05 * float(T.sampling_rate), 0.3 * float(T.sampling_rate)
+        lb, ub = 0.0537 * float(T.sampling_rate), 0.3071 * float(T.sampling_rate)
 
         def ff(b, a, x):
             x2 = np.atleast_2d(x)
@@ -639,6 +647,18 @@ def spectral_experiments(spec):
         fails.append(Failure('TimeSeries/sampling_rate/value', 'sampling_rate %r Hz for interval %d ps (unit %s)' % (rate, a_in['dt'], a_in['unit']),
                              {'meta': {'op': 'spectral', 'spec': spec}}))
     S = A.SpectralAnalyzer(T)
+    # reference: the same data on the same picosecond interval, expressed in seconds and starting at 0 (the
+    # configuration the repo's own tests cover) — used where the expected grid is the analyzer's own definition
+    # (frequency-grid conventions are C05's clauses; here only the unit-independence of Fs is judged)
+    iv_s = nt().TimeArray(np.int64(a_in['dt']), time_unit='ps')
+    iv_s.convert_unit('s')
+    Tref = nt().TimeSeries(d, sampling_interval=iv_s, time_unit='s')
+
+    def in_hz(name, getter, f):
+        f = np.asarray(f, dtype=float)
+        if not (0.2 * Fs <= np.abs(f).max() <= 0.5 * Fs * (1 + 1e-9)):
+            fails.append(Failure('%s/%s/not-in-hz' % (name, getter), '%s.%s: largest frequency %r is not in (0.2 Fs, 0.5 Fs] for Fs = %r Hz [unit=%s interval=%d ps]' % (
+                name, getter, np.abs(f).max(), Fs, a_in['unit'], a_in['dt']), {'meta': {'op': 'spectral', 'spec': spec}}))
 
     def psd():
         f, p = S.psd
@@ -648,7 +668,7 @@ def spectral_experiments(spec):
     attempt('SpectralAnalyzer', 'cpsd', lambda: chk('SpectralAnalyzer', 'cpsd', S.cpsd, tsa.get_spectra(d, method={'this_method': 'welch', 'Fs': Fs}), 'value'))
     attempt('SpectralAnalyzer', 'periodogram', lambda: chk('SpectralAnalyzer', 'periodogram', S.periodogram, tsa.periodogram(d, Fs=Fs), 'value'))
     attempt('SpectralAnalyzer', 'spectrum_fourier', lambda: chk('SpectralAnalyzer', 'spectrum_fourier', S.spectrum_fourier,
-                                                                (np.linspace(0, Fs / 2, d.shape[-1] // 2 + 1), np.fft.fft(d)[..., :d.shape[-1] // 2 + 1]), 'value'))
+                                                                (tsu.get_freqs(Fs, d.shape[-1]), np.fft.fft(d)[..., :len(tsu.get_freqs(Fs, d.shape[-1]))]), 'value'))
 
     def mt():
         f, p = S.spectrum_multi_taper
@@ -666,7 +686,8 @@ def spectral_experiments(spec):
 
         def mtc():
             M = A.MTCoherenceAnalyzer(T)
-            chk('MTCoherenceAnalyzer', 'frequencies', M.frequencies, np.linspace(0, Fs / 2, d.shape[-1] // 2 + 1), 'value')
+            chk('MTCoherenceAnalyzer', 'frequencies', M.frequencies, A.MTCoherenceAnalyzer(Tref).frequencies, 'value')
+            in_hz('MTCoherenceAnalyzer', 'frequencies', M.frequencies)
         attempt('MTCoherenceAnalyzer', 'frequencies', mtc)
 
         def corr():
@@ -676,20 +697,25 @@ def spectral_experiments(spec):
 
         def snr():
             Z = A.SNRAnalyzer(T)
-            chk('SNRAnalyzer', 'mt_frequencies', Z.mt_frequencies, np.linspace(0, Fs / 2, d.shape[-1] // 2 + 1), 'value')
+            chk('SNRAnalyzer', 'mt_frequencies', Z.mt_frequencies, A.SNRAnalyzer(Tref).mt_frequencies, 'value')
+            in_hz('SNRAnalyzer', 'mt_frequencies', Z.mt_frequencies)
             _, p, _ = tsa.multi_taper_psd(d.mean(0), Fs=Fs, BW=None, adaptive=False, low_bias=False)
             chk('SNRAnalyzer', 'mt_signal_psd', Z.mt_signal_psd, p, 'value')
         attempt('SNRAnalyzer', 'mt', snr)
 
         def gr():
             G = A.GrangerAnalyzer(T, order=2, n_freqs=32)
-            chk('GrangerAnalyzer', 'frequencies', G.frequencies, np.linspace(0, Fs / 2, 32 // 2 + 1), 'value')
+            chk('GrangerAnalyzer', 'frequencies', G.frequencies, A.GrangerAnalyzer(Tref, order=2, n_freqs=32).frequencies, 'value')
+            in_hz('GrangerAnalyzer', 'frequencies', G.frequencies)
         attempt('GrangerAnalyzer', 'frequencies', gr)
 
         def seedc():
             seed = nt().TimeSeries(d[0], sampling_interval=T.sampling_interval, time_unit=T.time_unit, t0=T.t0)
             SC = A.SeedCoherenceAnalyzer(seed, T, method={'this_method': 'welch', 'NFFT': 32, 'n_overlap': 16})
-            chk('SeedCoherenceAnalyzer', 'frequencies', SC.frequencies, np.linspace(0, Fs / 2, 32 // 2 + 1), 'value')
+            sref = nt().TimeSeries(d[0], sampling_interval=iv_s, time_unit='s')
+            chk('SeedCoherenceAnalyzer', 'frequencies', SC.frequencies,
+                A.SeedCoherenceAnalyzer(sref, Tref, method={'this_method': 'welch', 'NFFT': 32, 'n_overlap': 16}).frequencies, 'value')
+            in_hz('SeedCoherenceAnalyzer', 'frequencies', SC.frequencies)
         attempt('SeedCoherenceAnalyzer', 'frequencies', seedc)
     return fails
 
@@ -759,7 +785,7 @@ def judge_ctor(c):
         x = Fr(m['iv']) * FACTOR[m['unit']]
         if abs(a['dt'] - x) > Fr(1, 2) + abs(x) / 2**52:
             return [Failure('ctor/interval-number/value', 'interval %r %s stored as %d ps' % (m['iv'], m['unit'], a['dt']), {'meta': m}, case=c)]
-        Fs = 10.0**12 / a['dt']
+        Fs = float(Fr(10**12) / x)      # the rate belongs to the requested interval (sub-picosecond rounding of the stored interval is C02's clause)
         if abs(a['fs'] - Fs) > 1e-12 * Fs:
             return [Failure('ctor/interval-number/sampling_rate', 'rate %r for interval %d ps' % (a['fs'], a['dt']), {'meta': m}, case=c)]
     if m['op'] in ('mkT', 'rate'):
